@@ -422,6 +422,10 @@ fn jobject_to_choice(obj: &Map<String, serde_json::Value>) -> Result<Rc<dyn RTOb
     let original_thread_index = obj.get("originalThreadIndex").unwrap().as_i64().unwrap() as usize;
     let path_string_on_choice = obj.get("targetPath").unwrap().as_str().unwrap();
     let choice_tags = jarray_to_tags(obj);
+    let is_invisible_default = obj
+        .get("isInvisibleDefault")
+        .and_then(|v| v.as_bool())
+        .unwrap_or(false);
 
     Ok(Rc::new(Choice::new_from_json(
         path_string_on_choice,
@@ -430,6 +434,7 @@ fn jobject_to_choice(obj: &Map<String, serde_json::Value>) -> Result<Rc<dyn RTOb
         index,
         original_thread_index,
         choice_tags,
+        is_invisible_default,
     )))
 }
 
